@@ -43,7 +43,7 @@ var randomSuite = &suite{
 	run: func(c *child, b int) {
 		per := 400
 		if c.thorough {
-			per = 20000
+			per = 2500
 		}
 		rng := prng(uint64(c.seed)*0x100000001b3 + uint64(b) + 1)
 		cat := catalogue(false)
